@@ -1,5 +1,6 @@
 """Abstractions (proven contracts) and executor hooks shared by the checks."""
 from engine_m import oblig
+from engine_m import strings   # registers the bounded string layer
 from engine_m.models import Abstraction, BoundAbstraction
 from engine_m.sym import En, IV, Agg, Opaque, mk_int
 import z3
@@ -28,7 +29,7 @@ def _dtd_build(ex, args, res):
     return En(disc, {0: [k], 1: [err]}, 'Result')
 oblig.ABSTRACTION_TABLE['date_to_days'] = lambda ex: Abstraction('date_to_days', 'contract_date_to_days', [('ok', 'bool'), ('k', 'i32', -2**31, 2**31 - 1)], build=_dtd_build)
 # the closed-form day count as an uninterpreted pure function (sound over-approximation; used where only congruence matters)
-oblig.ABSTRACTION_TABLE['spec_rd/uf'] = lambda ex: Abstraction('spec_rd', None, [('rd', 'i64', -2**62, 2**62)], always=True)
+oblig.ABSTRACTION_TABLE['spec_rd/uf'] = lambda ex: Abstraction('spec_rd', 'contract_spec_rd_bound', [('rd', 'i64', -2**62, 2**62)], always=True)
 
 # the two instant <-> (day, nanoseconds) kernels through their contracts (c03_*_contract_holds, discharged in the same run)
 def _n2dn_build(ex, args, res):
